@@ -877,6 +877,8 @@ def check(ctx, rep):
               'a stale collector root that was a temporary string makes the next garbage collection end in KeyError')
     from . import c33 as _c33
     _sh.share(ctx, rep, _c33, ('colour.within-mode-range',), 'a drawing colour outside the byte range ends in ValueError when the pixel is written')
+    from . import c34 as _c34
+    _sh.share(ctx, rep, _c34, ('access.mapper-interface-complete', 'access.video-part-length-not-negative'), 'an operation missing from the mapper of the current mode, or a negative block length, ends in a host exception')
     check_e9(ctx, rep)
     check_e10(ctx, rep)
     check_e11(ctx, rep)
